@@ -204,6 +204,9 @@ def handleServe (op : String) (args : List String) (impl : Option (List String))
         | _, _ => some badProto
       | _, _, _, _ => some badProto
     | _ => some badProto
+  | "servereal", [_stream] =>
+    -- the real agent behind the server: serving survives every stream
+    some ⟨["ok"], impl.map fun out => if out == ["ok"] then "ok" else "bad:crash"⟩
   | "slots", [textS, exitS, mode] =>
     match bytesOfHex textS with
     | some text =>
